@@ -540,6 +540,132 @@ def r_wrap_calls(text, callee_pat, replacement, count=None):
     return text, k
 
 
+def r17_spawn_inline(text, count=None, pre="proof { tr.spawned = tr.spawned + 1; }"):
+    """R17 (spawn): `tokio::spawn(async move { B });` -> `{ PRE B }` executed in line.
+    Over-approximation for safety clauses of the spawning function: the detached task runs to completion (tokio, assumed); its only
+    interaction with the spawner is the message it sends, and the receiving side may pick any pending message in any order."""
+    k = 0
+    while True:
+        m = mask(text)
+        mm = re.search(r"tokio::spawn\s*\(\s*async\s+move\s*\{", m)
+        if not mm:
+            break
+        op = m.index("(", mm.start())
+        cp = match_close(m, op)
+        ob = mm.end() - 1
+        cb = match_close(m, ob)
+        if m[cb + 1:cp].strip():
+            raise Undecided("R17-spawn: unexpected tokens after the async block")
+        text = text[:mm.start()] + "{ " + pre + text[ob + 1:cb] + "}" + text[cp + 1:]
+        k += 1
+    if (count is None and k == 0) or (count is not None and count >= 0 and k != count):
+        raise Undecided("R17-spawn: %d spawn sites, expected %s" % (k, count))
+    return text, k
+
+
+def _split_select_arms(body):
+    """body: text inside tokio::select! { ... }. returns (biased, [dict(pat, fut, cond, code)], else_code)"""
+    m = mask(body)
+    i = 0
+    n = len(m)
+    biased = False
+    mm = re.match(r"\s*biased\s*;", m)
+    if mm:
+        biased = True
+        i = mm.end()
+    arms, else_code = [], None
+
+    def skip_ws(j):
+        while j < n and m[j].isspace():
+            j += 1
+        return j
+
+    def scan_until(j, stops):
+        """scan from j at depth 0 until one of the stop strings; returns (index, stop)"""
+        depth = 0
+        while j < n:
+            ch = m[j]
+            if ch in "([{":
+                depth += 1
+            elif ch in ")]}":
+                depth -= 1
+            if depth == 0:
+                for st in stops:
+                    if m.startswith(st, j):
+                        if st == "=" and (m.startswith("=>", j) or m.startswith("==", j) or (j > 0 and m[j - 1] in "=!<>")):
+                            continue
+                        return j, st
+            j += 1
+        return n, None
+
+    while True:
+        i = skip_ws(i)
+        if i >= n:
+            break
+        if m.startswith("else", i):
+            j, _ = scan_until(i, ["=>"])
+            j = skip_ws(j + 2)
+            if m[j] != "{":
+                raise Undecided("R17-select: else arm without block")
+            cb = match_close(m, j)
+            else_code = body[j:cb + 1]
+            i = cb + 1
+            if skip_ws(i) < n and m[skip_ws(i)] == ",":
+                i = skip_ws(i) + 1
+            continue
+        j, st = scan_until(i, ["="])
+        if st is None:
+            raise Undecided("R17-select: cannot parse arm")
+        pat = body[i:j].strip()
+        k, st = scan_until(j + 1, [", if", ",if", "=>"])
+        fut = body[j + 1:k].strip()
+        cond = None
+        if st and st.startswith(","):
+            k2, _ = scan_until(k + len(st), ["=>"])
+            cond = body[k + len(st):k2].strip()
+            k = k2
+        j = skip_ws(k + 2)
+        if m[j] == "{":
+            cb = match_close(m, j)
+            code = body[j:cb + 1]
+            i = cb + 1
+        else:
+            e, _ = scan_until(j, [","])
+            code = "{ " + body[j:e] + " }"
+            i = e
+        if skip_ws(i) < n and m[skip_ws(i)] == ",":
+            i = skip_ws(i) + 1
+        arms.append(dict(pat=pat, fut=fut, cond=cond, code=code))
+    return biased, arms, else_code
+
+
+def r17_select(text, count=1):
+    """R17 (select): tokio::select! { [biased;] P0 = rx.recv() => B0  P1 = F1 [, if C1] => B1  [else => B2] }
+    -> match vx_select2(C1, Tracked(tr)) { 0 => match rx.recv().vx_await(..) { P0 => B0, _ => unreachable }, 1 => { let P1 = F1.vx_await(..); B1 }, _ => B2 }
+    The choice among enabled branches is nondeterministic (every real execution, biased or not, is one of the modelled ones)."""
+    k = 0
+    while True:
+        m = mask(text)
+        mm = re.search(r"tokio::select!\s*\{", m)
+        if not mm:
+            break
+        ob = mm.end() - 1
+        cb = match_close(m, ob)
+        biased, arms, else_code = _split_select_arms(text[ob + 1:cb])
+        if len(arms) != 2 or not re.match(r"\w+\.recv\(\)$", arms[0]["fut"]) or arms[0]["cond"]:
+            raise Undecided("R17-select: unsupported shape (%d arms)" % len(arms))
+        c1 = arms[1]["cond"] or "true"
+        f1 = arms[1]["fut"]
+        repl = ("match vx_select2(%s, Tracked(tr)) {\n 0 => { match %s.vx_await(Tracked(tr)) { %s => %s, _ => { vx_branch_disabled(); } } }\n"
+                " 1 => { let %s = (%s).vx_await(Tracked(tr)); %s }\n _ => %s\n}") % (
+                    c1, arms[0]["fut"], arms[0]["pat"], arms[0]["code"], arms[1]["pat"], f1, arms[1]["code"], else_code or "{ vx_branch_disabled(); }")
+        text = text[:mm.start()] + repl + text[cb + 1:]
+        k += 1
+    if (count is None and k == 0) or (count is not None and count >= 0 and k != count):
+        raise Undecided("R17-select: %d select! sites, expected %s" % (k, count))
+    return text, k
+
+
 def apply_rules(text, rules, log, fn):
     """rules: list of tuples (kind, *args)."""
     for r in rules:
@@ -563,6 +689,10 @@ def apply_rules(text, rules, log, fn):
         elif kind == "wrapcalls":
             text, k = r_wrap_calls(text, *r[2:])
             kind = r[1]
+        elif kind == "R17-spawn":
+            text, k = r17_spawn_inline(text, *r[1:])
+        elif kind == "R17-select":
+            text, k = r17_select(text, *r[1:])
         elif kind == "R15":
             text, k = r15_opaque(text, *r[1:])
         elif kind == "R10r":
